@@ -28,6 +28,12 @@ func c20(c *Ctx) {
 	c20R2(c)
 	c20R3(c)
 	c20R4(c)
+	ruleOpenFileTrunc(c, "C20.R5", "the whole module (the generated CNI configuration list is written over the previous one)")
+	ruleStateless(c, "C20.R6", [][2]string{
+		{daemonTypesPkg, "ConfigFromConfigMap"},
+		{daemonTypesPkg, "MergeConfigAndUnmarshal"},
+		{daemonTypesPkg, "GetConfigFromFileWithMerge"},
+	})
 }
 
 func c20R1(c *Ctx) {
